@@ -2,5 +2,18 @@
 set -eu
 cd "$(dirname "$0")/../.."
 . bin/env.sh
+# --- engine S part: admission/promise/Flush core extracted from the tree
+G="$BUILD/c03gen"; mkdir -p "$G"
+go build -o "$BUILD/extract" ./cmd/extract
+bin/extract_imports.sh "$REPO/pkg/kgo/ring.go" "$G/ring.go" main
+"$BUILD/extract" -src "$REPO/pkg/kgo/producer.go" -pkg main -out "$G/producer.go" -imports '"context";"fmt";"github.com/twmb/franz-go/pkg/kerr"' \
+  -decls "Client.produce,producer.promiseBatch,producer.promiseRecord,producer.promiseRecordBeforeBuf,producer.finishPromises,Client.finishRecordPromise,Client.Flush,type:batchPromise"
+"$BUILD/extract" -src "$REPO/pkg/kgo/sink.go" -pkg main -out "$G/sink.go" -imports '"context"' -decls "type:promisedRec"
+printf '{"Replace":{"%s":"%s","%s":"%s","%s":"%s"}}\n' "$VERIF_ROOT/checks/c03/s/zz_ring.go" "$G/ring.go" "$VERIF_ROOT/checks/c03/s/zz_producer.go" "$G/producer.go" "$VERIF_ROOT/checks/c03/s/zz_sink.go" "$G/sink.go" > "$G/overlay.json"
+go build -overlay "$G/overlay.json" -o "$BUILD/c03s" ./checks/c03/s || { echo "EXTRACTION-ERROR: extracted producer slice no longer compiles against the stubs" >&2; exit 2; }
+export C03S_OUT="$BUILD/c03_s.json"
+rm -f "$C03S_OUT"
+"$BUILD/c03s"
+# --- engine N part (writes the evidence, merging the S summary)
 go test -c -tags synctests,verif -o "$BUILD/c03.test" ./checks/c03
 exec "$BUILD/c03.test" -test.run '^TestC03$' -test.timeout 0
